@@ -181,7 +181,14 @@ class CommandsPipeline(Module):
         valids_hist = valids.r
         if extended_overlaps_check:
             valids_hist = Signal.like(valids.r)
+            # Commands of the previous cycle: keep what has actually been sent (re-evaluating them
+            # here would ignore the cycle before and could disagree with what was sent).
+            valids_sent = Signal(nphases)
+            self.sync += valids_sent.eq(valids_hist[nphases:])
             for i in range(len(valids_hist)):
+                if i < nphases:
+                    self.comb += valids_hist[i].eq(valids_sent[i])
+                    continue
                 hist_before = valids_hist[max(0, i-n_previous):i]
                 was_valid_before = reduce(or_, hist_before, 0)
                 self.comb += valids_hist[i].eq(valids.r[i] & ~was_valid_before)
